@@ -13,7 +13,7 @@ import (
 // released; later e3 arrives.  kind 0: batching output, kind 1: synchronous output + discard.
 func StaleUnblock(kind int, procs int) hx.Sx {
 	ev := func(off int, ops string) hx.Sx {
-		return hx.L(hx.I(0), hx.I(1), hx.I(off), hx.S(fmt.Sprintf(`{"stream":"a","ops":"%s"}`, ops)))
+		return hx.L(hx.I(0), hx.I(1), hx.I(off), hx.S(fmt.Sprintf(`{"stream":"a","ops":"%s","m":"111"}`, ops)))
 	}
 	outKind, second := 1, "p"
 	if kind == 1 {
